@@ -4,6 +4,10 @@
      result's length at the axis, and its element at coordinate c is element c[axis] of the lane function applied to
      exactly the lane of the input at the remaining coordinates of c (move-to-last transpose, split into lanes,
      re-assembly and the move back are all inside the theorem);
+   - C08_along_lanes: the same statement with the hypothesis restricted to the lanes the array actually has (a body such
+     as `unique` answers with one common length only on the lanes at hand); C08_along_ragged: when two lanes give
+     results of different lengths nothing is returned (ShapeMustMatchValuesLength) — the repair F29: the pinned code
+     re-assembled such results misaligned whenever their total happened to fit;
    - C08_scan_axis / C08_reduce_axis / C08_index_reduce_axis: its instances for scans (cumsum, cumprod and their nan-skipping forms),
      reductions (sum, prod, max, min and their nan-skipping forms) and counting / searching (count_nonzero, argmax, argmin);
    - the 1-D bodies meet their definitions (running totals, bounding element, count); with no axis the operation
@@ -12,7 +16,7 @@
    MODELLED, NOT PROVED: floating-point lane bodies (the correspondence check compares them through the
    implementation's own 1-D call on the lane the model extracts); diff/ediff1d/gradient-style operations that do not go
    through apply_along_axis are covered by the correspondence check only. *)
-From ArrRs Require Import Index Axis Axis_proofs Broadcast_proofs Split Lift Reduce Reduce_proofs Along_proofs.
+From ArrRs Require Import Index Axis Axis_proofs Broadcast_proofs Split Lift Reduce Reduce_proofs Along_proofs Along_general.
 
 Theorem C08_cumsum_lane : forall l k, k < length l -> nth k (z_cumsum1 l) 0%Z = z_sum1 (firstn (S k) l).
 Proof. exact z_cumsum1_spec. Qed.
@@ -112,3 +116,20 @@ Example C08_lane_nonvacuous :
   wf a /\ pos_shape (shape a) /\ axis_ok (ndim a) (-3)%Z /\ norm_nat (ndim a) (-3)%Z = 1 /\
   elems (lane 0%Z a 1 [1;0;1]) = [13; 17; 21]%Z.
 Proof. cbn zeta. repeat split; try (vm_compute; reflexivity); try (unfold axis_ok; cbn; lia). repeat constructor. Qed.
+
+Theorem C08_along_lanes : forall (T U : Type) (dt : T) (du : U) (a : arr T) ax (f : arr T -> res (arr U)) (fr : arr T -> arr U) m,
+  wf a -> pos_shape (shape a) -> ax < ndim a -> (Z.of_nat (ndim a) < two64)%Z ->
+  (forall rest, in_range (remove_nth (shape a) ax) rest ->
+     f (lane dt a ax rest) = Ok (fr (lane dt a ax rest)) /\ len (fr (lane dt a ax rest)) = m) ->
+  exists R, apply_along_axis dt du a ax f = Ok R /\ wf R /\ shape R = upd (shape a) ax m /\
+    forall c, in_range (shape R) c ->
+      get du R c = nth (nth ax c 0) (elems (fr (lane dt a ax (remove_nth c ax)))) du.
+Proof. exact @apply_along_axis_lanes. Qed.
+
+Theorem C08_along_ragged : forall (T U : Type) (dt : T) (du : U) (a : arr T) ax (f : arr T -> res (arr U)) (fr : arr T -> arr U) r1 r2,
+  wf a -> pos_shape (shape a) -> ax < ndim a -> (Z.of_nat (ndim a) < two64)%Z ->
+  (forall rest, in_range (remove_nth (shape a) ax) rest -> f (lane dt a ax rest) = Ok (fr (lane dt a ax rest))) ->
+  in_range (remove_nth (shape a) ax) r1 -> in_range (remove_nth (shape a) ax) r2 ->
+  len (fr (lane dt a ax r1)) <> len (fr (lane dt a ax r2)) ->
+  apply_along_axis dt du a ax f = Err EShapeLen.
+Proof. exact @apply_along_axis_ragged. Qed.
